@@ -75,6 +75,7 @@ OkIncS(v) == v \in {"ok", "inc"}
 BIG == /\ st = "called" /\ R.kind = "big"
        /\ Clause("C09", "long_run_completes", R.completed)
        /\ (R.completed =>
+            /\ Clause("C04", "T_labels_exact_margins_interior_in_range_K_mrfs_and_echo", R.labelsOk)
             /\ Clause("C06", "one_likelihood_entry_per_labelled_point", R.nAll = R.n)
             /\ Clause("C06", "accounting_identities_hold_on_a_long_run", OkIncS(R.acctOk))
             /\ Clause("C05", "result_lists_the_log_density_of_every_labelled_point_and_aggregates_exactly_those",
